@@ -138,6 +138,11 @@ class World(object):
         self.spect = CRYSTALS[w["crystal"]][2]
         ce, jn, vce, ts, tsv = get_expansions(w["crystal"], w["cutoff"], w["order"])
         self.jn = jn
+        if w.get("jnperm"):
+            # a jump network assembled by the user: the same jumps, each list in another order (all forward jumps
+            # first, then all reverses; or shuffled) -- nothing says a jump must be followed by its reverse
+            prnd = random.Random(w["vseed"] + 29)
+            self.jn = [(jl[0::2] + jl[1::2]) if w["jnperm"] == "split" else prnd.sample(jl, len(jl)) for jl in jn]
         rnd = random.Random(w["vseed"])
         self.vac = bool(w["vac"])
         self.ce = ce + vce if self.vac else ce
@@ -309,6 +314,11 @@ class Run(RunBase):
             self.mc = self.W.sampler(own=self.own)
             self.tmpl = self.W.sampler(private=True)
             self.faults["sampler-built-on-shared-supercell"] += 1
+            if not self.W.vac and world.get("vseed", 0) % 2:
+                # ... or the driver goes on to build a vacancy sampler on the same supercell object: the marker is
+                # set AFTER the vacancy-free sampler under test was built
+                self.W.shared.addvacancy(self.W.jumping[world["vseed"] % len(self.W.jumping)])
+                self.faults["supercell-vacancy-moved-after-construction"] += 1
             if self.W.vac and world.get("vseed", 0) % 2:
                 # ... and the driver has moved on: the supercell object's own vacancy marker is changed (or removed)
                 # after the sampler was built; the sampler keeps the vacancy it was built with
@@ -1229,6 +1239,7 @@ class Engine(object):
             w["shared_sup"] = rng.choice((False, False, False, False, False, "values", "jumpnet", "expansion"))
             w["quiet"] = rng.choice((0, 0, 0.5, 0.9))
             w["merge"] = rng.random() < 0.25
+            w["jnperm"] = rng.choice((None, None, None, "split", "shuffle"))
             w["class"] = "{}/{}/c{}o{}{}{}{}".format(c, s, cutoff, order, "/vac" if vac else "",
                                                      "/jn" if jumps else "", "/ts" if w["ts"] else "")
             return w
